@@ -7,6 +7,7 @@ import (
 	"os"
 	"os/exec"
 	"path/filepath"
+	"sort"
 	"strings"
 	"sync"
 	"time"
@@ -68,6 +69,7 @@ func cmdCheck(args []string) int {
 	only := fs.String("only", "", "restrict to units whose name contains this")
 	verbose := fs.Bool("v", false, "verbose")
 	keep := fs.Bool("keep", false, "keep smt files")
+	writeBase := fs.Bool("write-baseline", false, "record the units that verify completely in baseline/decided_<prop>.json (run on the unchanged tree, no -only)")
 	fs.Parse(args)
 	start := time.Now()
 	w, err := loadWorld()
@@ -85,7 +87,30 @@ func cmdCheck(args []string) int {
 		w.UnitBudget = 600
 	}
 	run := &Run{w: w, prop: *prop, tier: *tier, timeout: timeout, verbose: *verbose, start: start, only: *only, keep: *keep}
-	return run.execute()
+	rc := run.execute()
+	if *writeBase && *only == "" {
+		var names []string
+		for _, u := range run.units {
+			if u.Undecided != "" {
+				continue
+			}
+			ok := true
+			for _, o := range u.Obls {
+				if o.Status != "discharged" {
+					ok = false
+				}
+			}
+			if ok {
+				names = append(names, u.Name)
+			}
+		}
+		sort.Strings(names)
+		b, _ := json.MarshalIndent(names, "", " ")
+		os.MkdirAll(filepath.Join(verifDir, "baseline"), 0755)
+		os.WriteFile(filepath.Join(verifDir, "baseline", "decided_"+*prop+".json"), b, 0644)
+		fmt.Printf("baseline: %d decided units recorded for %s\n", len(names), *prop)
+	}
+	return rc
 }
 
 type Run struct {
